@@ -72,6 +72,13 @@ def op_dump(w, ins):
             items = [(j, s.tt) for j, s in enumerate(sl)]
             cont = 'list'
     fname = f"f{ins['file']}.{'p' if fmt == 'pickle' else 'json'}"
+    # file names differ in case too (the extension test is case-insensitive,
+    # the path is not): `F1.p` and `f1.p` are two files
+    case = ins.get('case', 0)
+    if case == 1:
+        fname = fname[0].upper() + fname[1:]
+    elif case == 2:
+        fname = fname.split('.')[0] + '.' + fname.split('.')[1].upper()
     order = list(w.snapshot(m).order)
     fault = ins.get('fault')
     if fault and fault['kind'] in ('stale', 'shelf') and fmt != 'json':
@@ -466,6 +473,7 @@ def gen_dump(w, r, cfg):
     kinds = ['open', 'write', 'write'] + (['stale', 'shelf'] if fmt == 'json' else [])
     return dict(op='dump', m=0 if r.random() < 0.8 else 1, fmt=fmt, roots=roots,
                 as_dict=r.randrange(2), file=r.randrange(4), filetype=r.randrange(2),
+                case=r.choice([0, 0, 0, 1, 1, 2]),
                 fault=_gen_fault(r, cfg, kinds))
 
 
